@@ -11,6 +11,11 @@ pair (shift, tag): the undecorated function returns its table value for the indi
 * `delta <feas> <weights> <delta> <dist> <f0> <shift> <tag>`
 * `closest <feas> <weights> <alpha> <dist> <cid> <f0> <fc> <shift> <tag>`
 
+* `fam <classes> <cls> delta|closest …` with `@` in the place of `<weights>`: the individual's fitness is an
+  instance of class number `<cls>` of the family `<classes>` = `;`-separated `<parent|b>:<weights|none>` in creation
+  order (`b` = derives from `base.Fitness`, `none` = no `weights` entry of its own); the weights are what that class
+  resolves to (`Fitness.lookupWeights`).
+
 `<delta>` = `s:<rat>` | `v:<list>`; `<dist>` = `none` | `s:<rat>` | `v:<list>` (what the distance
 function returns for the individual, resp. for `(cid, 0)`); answer `<result> | <calls>` with
 `<result>` = list or `raise`, `<calls>` = `id:shift:tag,…` or `-`.
@@ -34,7 +39,41 @@ def showOut (o : Out Nat Extras Rat) : String :=
 
 def evalFn (table : Nat → List Rat) (i : Nat) (a : Extras) : List Rat := (table i).map (· + a.1)
 
+def parseClass (s : String) : Option (Fitness.FitClass Rat) :=
+  match s.splitOn ":" with
+  | [p, w] => do
+      let parent ← if p = "b" then some none else (parseNat p).map some
+      let weights ← if w = "none" then some none else (parseList parseRat w).map some
+      some ⟨weights, parent⟩
+  | _ => none
+
+/-- the class statements in creation order; a parent that does not exist yet is malformed input -/
+def parseTable (s : String) : Option (Fitness.ClassTable Rat) := do
+  let ks ← (s.splitOn ";").mapM parseClass
+  ks.foldlM Fitness.defClass []
+
 def handle : List String → String
+  | ["fam", tbl, cls, "delta", feas, "@", delta, dist, f0, shift, tag] =>
+    match (do
+      let t ← parseTable tbl; let c ← parseNat cls
+      let fe ← parseBool feas; let d ← parseSV delta
+      let di ← parseDist dist; let t0 ← parseList parseRat f0; let sh ← parseRat shift
+      deltaPenaltyCls t (fun (_ : Nat) => c) (fun _ => fe) d (di.map fun v _ => v)
+        (evalFn fun _ => t0) 0 (sh, tag)) with
+    | some o => showOut o
+    | none => "bad-op"
+  | ["fam", tbl, cls, "closest", feas, "@", alpha, dist, cid, f0, fc, shift, tag] =>
+    match (do
+      let t ← parseTable tbl; let k ← parseNat cls
+      let fe ← parseBool feas; let al ← parseRat alpha
+      let di ← parseDist dist; let c ← parseNat cid
+      let t0 ← parseList parseRat f0; let tc ← parseList parseRat fc; let sh ← parseRat shift
+      if c > 1 then none else
+      closestValidPenaltyCls t (fun (_ : Nat) => k) (fun _ => fe) (fun _ => c) al
+        (di.map fun v fi x => if fi = c ∧ x = 0 then v else .seq [])
+        (evalFn fun i => if i = 0 then t0 else tc) 0 (sh, tag)) with
+    | some o => showOut o
+    | none => "bad-op"
   | ["delta", feas, ws, delta, dist, f0, shift, tag] =>
     match (do
       let fe ← parseBool feas; let w ← parseList parseRat ws; let d ← parseSV delta
